@@ -37,7 +37,7 @@ std::string origin_response(std::string const& path, int k)
 	return fmt("HTTP/1.1 200 OK\r\ncontent-length: %zu\r\nx-origin: %d\r\n\r\n", n, k) + b;
 }
 
-struct Scn { int host; std::vector<int> seq; std::vector<int> cuts; int spacing_ms; int next_client; /*0 after, 1 connects while the first is active, 2 connects at the moment the first closes*/ };
+struct Scn { int host; std::vector<int> seq; std::vector<int> cuts; int spacing_ms; int next_client; /*0 after, 1 connects while the first is active, 2 connects at the moment the first closes*/ int stop_at_boundary = -1; /* >= 0: stop() at that event boundary of the run (step hook) */ };
 
 std::string request_text(int host, RK const& r)
 {
@@ -46,7 +46,7 @@ std::string request_text(int host, RK const& r)
 	return std::string(r.method) + " http://" + HOST_URL[host] + r.path + " HTTP/1.1\r\n" + r.headers + "\r\n";
 }
 
-struct Res { std::vector<std::string> fails; std::string client_got; std::vector<std::string> origin_got; /* requests on the origin connection(s) opened for the FIRST client */ std::vector<std::string> lookups; bool eof = false; uint64_t transitions = 0; };
+struct Res { std::vector<std::string> fails; std::string client_got; std::vector<std::string> origin_got; /* requests on the origin connection(s) opened for the FIRST client */ std::vector<std::string> lookups; bool eof = false; uint64_t transitions = 0; int boundaries = 0; };
 
 Res run_scn(Scn const& sc)
 {
@@ -82,7 +82,7 @@ Res run_scn(Scn const& sc)
 	reader = [&]() { cli.async_read_some(asio::buffer(rb), [&](error_code const& ec, std::size_t n) { ++R.transitions; if (ec) { if (ec == asio::error::eof) R.eof = true; return; } R.client_got.append(rb.data(), n); reader(); }); };
 	send_next = [&]() { if (next_piece >= pieces.size()) return; std::string const& pc = pieces[next_piece++]; if (pc.empty()) { send_next(); return; }
 		asio::async_write(cli, asio::buffer(pc), [&](error_code const& ec, std::size_t) { if (ec) return; if (sc.spacing_ms == 0) send_next(); else { gap.expires_after(ms(sc.spacing_ms)); gap.async_wait([&](error_code const& e2) { if (!e2) send_next(); }); } }); };
-	cli.async_connect(ip::tcp::endpoint(addr("10.0.2.1"), 3128), [&](error_code const& ec) { if (ec) { fail("connect: client to proxy: " + ecs(ec)); return; } connected = true; reader(); send_next(); });
+	cli.async_connect(ip::tcp::endpoint(addr("10.0.2.1"), 3128), [&](error_code const& ec) { if (ec) { if (sc.stop_at_boundary < 0) fail("connect: client to proxy: " + ecs(ec)); /* with stop(): refused, or aborted by the harness's own clean-up */ return; } connected = true; reader(); send_next(); });
 	// ---- a second client, connecting while the first is still being served (its SYN waits in the proxy's accept queue) ----
 	ip::tcp::socket c2(nC2); std::string got2; std::vector<char> rb2(8192); bool done2 = false, eof2 = false; error_code cec2;
 	std::string rq2 = "GET http://10.0.1.1:8000/second-client HTTP/1.1\r\n\r\n";
@@ -90,8 +90,24 @@ Res run_scn(Scn const& sc)
 	auto start2 = [&]() { if (sc.next_client != 1) second_started = true; c2.async_connect(ip::tcp::endpoint(addr("10.0.2.1"), 3128), [&](error_code const& ec) { done2 = true; cec2 = ec; if (ec) return; rd2(); asio::async_write(c2, asio::buffer(rq2), [](error_code const&, std::size_t) {}); }); };
 	asio::high_resolution_timer t2(nC2);
 	if (sc.next_client == 1) { t2.expires_after(ms(3)); t2.async_wait([&](error_code const& ec) { if (!ec) start2(); }); }
-	sim.run();
+	int boundary = 0; bool stopped = false;
+	if (sc.stop_at_boundary >= 0) Hook::set([&](int) { if (boundary++ == sc.stop_at_boundary && !stopped) { proxy->stop(); stopped = true; } });
+	try { sim.run(); } catch (...) { Hook::clear(); throw; }
+	Hook::clear(); R.boundaries = boundary;
 	R.lookups = w.lookups;
+	if (stopped) {
+		// stop() in mid-flight: whatever the client got is a prefix of what it was due (or a 503), nothing is relayed that nobody asked for,
+		// and the proxy no longer listens
+		std::string due; int kk = 0; for (size_t i = 0; i < sc.seq.size(); ++i) { RK const& q = RKS[sc.seq[i]]; if (q.kind != 0) break; due += origin_response(q.path[0] ? q.path : "/", kk++); }
+		bool ok = reachable(sc.host) ? R.client_got == due.substr(0, R.client_got.size()) : (R.client_got.empty() || R.client_got.compare(0, 12, "HTTP/1.1 503") == 0);
+		if (!ok) fail(fmt("relay: (stop() at boundary %d) the %zu bytes the client received are not a prefix of what its requests are due", sc.stop_at_boundary, R.client_got.size()));
+		error_code ig; cli.close(ig); c2.close(ig); sim.run();
+		{ ip::tcp::socket c3(nC); bool d3 = false; error_code e3; c3.async_connect(ip::tcp::endpoint(addr("10.0.2.1"), 3128), [&](error_code const& ec) { d3 = true; e3 = ec; }); sim.run(); if (!d3 || e3 != asio::error::connection_refused) fail(fmt("stop: after stop() at boundary %d a connect to the proxy ", sc.stop_at_boundary) + (d3 ? "completed with " + ecs(e3) : std::string("stayed pending"))); c3.close(ig); }
+		for (auto& c : oconns) if (c->s) c->s->close(ig);
+		a4.close(ig); a6.close(ig); sim.run();
+		proxy.reset(); oconns.clear();
+		return R;
+	}
 	// ---- reference ----
 	std::vector<std::string> want_origin; std::string want_client; int bad = -1; int k = 0;
 	for (size_t i = 0; i < sc.seq.size(); ++i) {
@@ -178,10 +194,10 @@ struct ProxyEngine : Engine
 	void one(Ctx& ctx, uint64_t u, Scn const& s)
 	{
 		if (!ctx.next_case()) return;
-		Case c; c.set("u", (long long)u).set_ints("cuts", s.cuts).set("sp", s.spacing_ms).set("nc", s.next_client).set("thorough", ctx.args.thorough() ? 1 : 0).set("host", HOST_URL[s.host]);
+		Case c; c.set("u", (long long)u).set_ints("cuts", s.cuts).set("sp", s.spacing_ms).set("nc", s.next_client).set("stopb", s.stop_at_boundary).set("thorough", ctx.args.thorough() ? 1 : 0).set("host", HOST_URL[s.host]);
 		ctx.begin(c);
 		Res r = run_scn(s);
-		ctx.R.transitions += r.transitions; ctx.state(fmt("%llu|", (unsigned long long)u) + c.str("cuts") + fmt("|%d|%d", s.spacing_ms, s.next_client)); ctx.outcome(fmt("%llx/%zu/%d", (unsigned long long)fnv(r.client_got), r.origin_got.size(), int(r.eof)));
+		ctx.R.transitions += r.transitions; ctx.state(fmt("%llu|", (unsigned long long)u) + c.str("cuts") + fmt("|%d|%d|%d", s.spacing_ms, s.next_client, s.stop_at_boundary)); ctx.outcome(fmt("%llx/%zu/%d", (unsigned long long)fnv(r.client_got), r.origin_got.size(), int(r.eof)));
 		auto clause_of = [](std::string const& x) { return x.substr(0, x.find(':')); };
 		for (auto& f : r.fails) add_violation(ctx, clause_of(f), c, scn_str(s) + ": " + f, clause_of(f) + "/" + HOST_URL[s.host] + fmt("/%zu/%d", s.seq.size(), s.next_client));
 		if (ctx.R.samples.empty() && s.cuts.size() == 1 && s.seq.size() == 2 && reachable(s.host)) ctx.R.sample(scn_str(s) + fmt(" => client got %zu bytes, origin saw %zu requests", r.client_got.size(), r.origin_got.size()));
@@ -196,12 +212,17 @@ struct ProxyEngine : Engine
 		for (int nc = 0; nc < 3; ++nc) { Scn t = s; t.next_client = nc; one(ctx, ui, t); }
 		for (int sp : { 1, 30 }) for (size_t c = 1; c < len; ++c) { if (sp == 30 && c % 3) continue; Scn t = s; t.cuts = { int(c) }; t.spacing_ms = sp; t.next_client = int(c % 3); one(ctx, ui, t); }
 		if (ctx.args.thorough()) for (size_t c1 = 1; c1 < len; c1 += 7) for (size_t c2 = c1 + 1; c2 < len; c2 += 7) { Scn t = s; t.cuts = { int(c1), int(c2) }; t.spacing_ms = 1; one(ctx, ui, t); }
+		if (s.seq.size() <= 2 && (s.seq.size() == 1 || ctx.args.thorough() || s.seq[0] == 0)) { // stop() at every event boundary (step hook)
+			for (int nc : { 0, 1 }) { Scn t = s; t.next_client = nc; t.stop_at_boundary = 1 << 30; Res base = run_scn(t);
+				for (int k = 0; k < base.boundaries; ++k) { t.stop_at_boundary = k; one(ctx, ui, t); }
+				ctx.R.counters["stop_boundaries"] += uint64_t(base.boundaries); }
+		}
 		ctx.R.bounds["requests_per_sequence"] = 3; ctx.R.bounds["cuts"] = ctx.args.thorough() ? 2 : 1;
 	}
 	int replay(Case const& c, Args const& a) override
 	{
 		Args a2 = a; a2.tier = c.num("thorough") ? "thorough" : "quick"; units(a2);
-		U const& u = us.at(size_t(c.num("u"))); Scn s; s.host = u.host; s.seq = u.seq; s.cuts = c.ints("cuts"); s.spacing_ms = int(c.num("sp")); s.next_client = int(c.num("nc"));
+		U const& u = us.at(size_t(c.num("u"))); Scn s; s.host = u.host; s.seq = u.seq; s.cuts = c.ints("cuts"); s.spacing_ms = int(c.num("sp")); s.next_client = int(c.num("nc")); s.stop_at_boundary = int(c.num("stopb", -1));
 		vf_quiet = 1; Res r = run_scn(s); vf_quiet = 0;
 		std::fprintf(stdout, "%s\norigin received %zu request(s):\n", scn_str(s).c_str(), r.origin_got.size());
 		for (auto& g : r.origin_got) std::fprintf(stdout, "  %s\n", jesc(g).c_str());
